@@ -16,7 +16,10 @@ EmptyG == [nodes |-> {}, edges |-> {}, attrs |-> {}, map |-> {}, recs |-> {}]
 BInit == /\ di \in 1..Len(AllDecls)
          /\ work = {AllDecls[di].output} /\ visited = {AllDecls[di].output}
          /\ g = [EmptyG EXCEPT !.map = {AllDecls[di].input}]
-         /\ validated = <<>> /\ verdict = "running"
+         /\ validated = <<>>
+         /\ verdict = IF \E i \in 1..Len(AllDecls[di].decls) : AllDecls[di].decls[i].defect = "generic_partial"
+                      THEN "NonRedefinedGenericTypeError"      \* rejected by build_node before build_dag is called
+                      ELSE "running"
 
 Pop(n) ==
     LET D == AllDecls[di]
